@@ -17,9 +17,9 @@ HERE = os.path.dirname(os.path.dirname(os.path.abspath(__file__)))
 REPO = '/repo'
 
 
-def anchored_functions(pid):
+def anchored_functions(pid, extra=()):
     prop = next(json.loads(l) for l in open(os.path.join(HERE, 'properties.jsonl')) if json.loads(l)['id'] == pid)
-    words = set(re.findall(r'[A-Za-z_][A-Za-z_0-9]*', json.dumps(prop['anchors'])))
+    words = set(re.findall(r'[A-Za-z_][A-Za-z_0-9]*', json.dumps(prop['anchors']))) | set(extra)
     out = []
     for rel in prop['anchors']['files']:
         src = open(os.path.join(REPO, rel)).read()
@@ -228,9 +228,11 @@ def main():
     ap.add_argument('--jobs', type=int, default=4)
     ap.add_argument('--workers', type=int, default=4)
     ap.add_argument('--seed', type=int, default=0)
+    ap.add_argument('--names', default='', help='comma-separated extra function names to mutate (besides those in the anchors)')
+    ap.add_argument('--suffix', default='', help='suffix of the report files notes/mutation/<PID><suffix>.{md,json}')
     a = ap.parse_args()
     pid = a.pid.upper()
-    funcs = anchored_functions(pid)
+    funcs = anchored_functions(pid, [n for n in a.names.split(',') if n])
     allm = []
     for rel, name, lo, hi in funcs:
         src = open(os.path.join(REPO, rel)).read()
@@ -252,7 +254,7 @@ def main():
     for r in results:
         counts[r['status']] = counts.get(r['status'], 0) + 1
     head = subprocess.run(['git', '-C', REPO, 'rev-parse', '--short', 'HEAD'], stdout=subprocess.PIPE, text=True).stdout.strip()
-    with open(os.path.join(HERE, 'notes', 'mutation', pid + '.md'), 'w') as f:
+    with open(os.path.join(HERE, 'notes', 'mutation', pid + a.suffix + '.md'), 'w') as f:
         f.write('# Mutation sweep of %s (quick tier, /repo at %s, seed %d)\n\n' % (pid, head, a.seed))
         f.write('%d first-order mutants of the anchored functions were generated, %d sampled and run: %s\n\n' % (
             len(allm), len(chosen), ', '.join('%s %d' % kv for kv in sorted(counts.items()))))
@@ -264,7 +266,7 @@ def main():
             f.write('\n## Not reported (to triage: equivalent mutant, outside the reading, or generator gap)\n\n')
             for r in surv:
                 f.write('* #%d %s %s\n```\n%s\n```\n' % (r['k'], r['file'], r['desc'], r.get('tail', '')[-400:]))
-    json.dump(results, open(os.path.join(HERE, 'notes', 'mutation', pid + '.json'), 'w'), indent=1)
+    json.dump(results, open(os.path.join(HERE, 'notes', 'mutation', pid + a.suffix + '.json'), 'w'), indent=1)
     print(counts)
 
 
